@@ -147,7 +147,8 @@ impl Proj {
             } else {
                 let exp = dgram_payload(did as u32, size);
                 // the echo header as the world sent it (type 8 from A, type 0 back from B), checksum over the message
-                let ty = if from == 0 { 8u8 } else { 0u8 };
+                // (the type octet is in the first fragment only; the octets after the header are the same for both)
+                let ty = if ip.frag_off == 0 && ip.l4_bytes.first() == Some(&0) { 0u8 } else { 8u8 };
                 let mut hdr = vec![ty, 0, 0, 0, 0x42, 0x42, 0, 1];
                 let mut whole = hdr.clone();
                 whole.extend_from_slice(&exp);
@@ -191,6 +192,34 @@ fn craft_frags(ident: u16, did: u32, size: usize, port: u16, per: usize, eth: bo
         h[10..12].copy_from_slice(&c.to_be_bytes());
         h.extend_from_slice(&l4[off..off + n]);
         v.push(if eth { eth_frame([2, 0, 0, 0, 0, B[3]], [2, 0, 0, 0, 0, C[3]], 0x0800, &h) } else { h });
+        off += n;
+    }
+    v
+}
+
+/// Station C's oversized echo request `did` for A (the reply has to be fragmented too), cut into fragments.
+fn craft_ping_frags(ident: u16, did: u32, size: usize, per: usize) -> Vec<Vec<u8>> {
+    let mut m = vec![8u8, 0, 0, 0, 0x42, 0x42, 0, 1];
+    m.extend_from_slice(&dgram_payload(did, size));
+    let c = csum(&m);
+    m[2..4].copy_from_slice(&c.to_be_bytes());
+    let whole = ipv4_packet(C, A, 1, ident, 64, &m, false);
+    let l4 = &whole[20..];
+    let mut v = vec![];
+    let mut off = 0;
+    while off < l4.len() {
+        let n = per.min(l4.len() - off);
+        let last = off + n == l4.len();
+        let mut h = whole[..20].to_vec();
+        h[2..4].copy_from_slice(&((20 + n) as u16).to_be_bytes());
+        let fl = ((off / 8) as u16) | if last { 0 } else { 0x2000 };
+        h[6..8].copy_from_slice(&fl.to_be_bytes());
+        h[10] = 0;
+        h[11] = 0;
+        let c = csum(&h);
+        h[10..12].copy_from_slice(&c.to_be_bytes());
+        h.extend_from_slice(&l4[off..off + n]);
+        v.push(h);
         off += n;
     }
     v
@@ -363,6 +392,7 @@ pub fn random(args: &Args) {
         // station C: once per run, a datagram of its own whose fragments carry the identification A is using right
         // now and travel interleaved with A's (same destination, same protocol, different source)
         let mut twin = mtu >= 100 && rng.chance(35);
+        let mut cping = mtu >= 100 && mtu < 1400 && rng.chance(40);
         let mut steps = 0;
         loop {
             steps += 1;
@@ -411,7 +441,25 @@ pub fn random(args: &Args) {
             let Some(out) = w.poll(0, ba, eg && false, &mut t) else { break };
             w.a.dev.tx_budget = None;
             w.drain_recv(0, &mut t);
+            // station C: an oversized echo request for A arriving while A still has fragments of its own to send
+            // (raw-IP runs only: on Ethernet A would have to resolve C first); the reply needs fragmenting as well
+            if cping && !eth && w.a.poll_at(w.now) == 0 {
+                cping = false;
+                let did = 950_000 + run as u32;
+                let per = (mtu - 20) & !7;
+                let size = rng.range(mtu as u64, (fragbuf - 28) as u64) as usize;
+                w.proj.sizes.insert(did, (size, 0, 0, true));
+                let fr = craft_ping_frags(0x7000 + run as u16, did, size, per);
+                let outs: Vec<Value> = fr.iter().map(|x| w.proj.frame(2, x)).collect();
+                t.ev(json!({"ev":"api","ep":2,"now":w.now,"call":"send","kind":"icmp","sock":0,"did":did,"size":size,"total":8+size,"ok":true}));
+                t.ev(json!({"ev":"poll","ep":2,"now":w.now,"rx":[],"out":outs,"pa":-1,"eg":true}));
+                back.extend(fr);
+            }
             for f in out {
+                // frames for station C end there
+                if !eth && f.len() >= 20 && f[16..20] == C {
+                    continue;
+                }
                 let is_arp = eth && f.len() >= 14 && f[12] == 8 && f[13] == 6;
                 let c = if is_arp { 100 } else { rng.below(100) };
                 let is_frag = { let o = if eth { 14 } else { 0 }; f.len() > o + 8 && (u16::from_be_bytes([f[o + 6], f[o + 7]]) & 0x3fff) != 0 };
